@@ -650,3 +650,24 @@ class MathProxy:
 
 
 MATHX = MathProxy()
+
+
+# ---------------------------------------------------------------- scipy.ndimage (compiled): concrete arrays only
+
+
+class NdiProxy:
+    """scipy.ndimage runs for real; a symbolic element reaching it is a harness error (masks are concrete per path)"""
+
+    def __getattr__(self, name):
+        import scipy.ndimage as _ndi
+        real = getattr(_ndi, name)
+
+        def f(*args, **kw):
+            a = [sym.concretize(x) if isinstance(x, _np.ndarray) else x for x in args]
+            k = {n: (sym.concretize(v) if isinstance(v, _np.ndarray) else v) for n, v in kw.items()}
+            return deep_wrap(real(*a, **k))
+
+        return f
+
+
+NDIX = NdiProxy()
